@@ -414,13 +414,16 @@ PROPS = {
         "assumptions": ["core::cmp::min is specified through vstd's OrdSpec"],
     },
     "C12": {
-        "level": "other",
-        "units": ["nameorder"],
+        "level": "proof",
+        "level_prefix": "Partial proof -- contracts discharged without bound on the mechanisms named below, not the whole statement (bounded stand-ins and what is left out are listed): ",
+        "units": ["rrsigdata", "nameorder"],
         "vx_search": {"bin": "c12_search_sign_verify", "crate": "replay_sign", "release": True,
                       "what": "A and MX RRsets under ordinary, wildcard and interior-asterisk owners signed with fresh Ed25519 and ECDSA P-256 keys "
                               "(ring): the RRSIG carries the RFC 4034 3.1.3 label count and verifies over the data RrsigExt::signed_data "
                               "reconstructs -- reordered, TTL decremented, owner and RDATA names in another case, as wildcard expansions with "
-                              "upper case in the replaced and in the kept part -- and does not verify changed data; on the real crate"},
+                              "upper case in the replaced and in the kept part -- and does not verify changed data; sign_sorted_rrset_in with one "
+                              "scratch buffer for a sequence of RRsets, a buffer that is not empty on entry and a key back end that fails "
+                              "once in between: every RRSIG returned verifies; on the real crate"},
         "kani": [
             {"group": "g0", "name": "c12_key_tag_matches_rfc4034_bounded", "kind": "bounded", "tier": "quick",
              "bound": "public keys of 0..=12 octets, all flags/protocol/algorithm values except RSAMD5, all key contents",
@@ -434,17 +437,36 @@ PROPS = {
              "what": "ToName::rrsig_label_count on the compiled code: labels without the root and without a LEFTMOST asterisk label "
                      "only (RFC 4034 3.1.3) -- the compiled counterpart of the contract in unit nameorder"},
         ],
-        "explanation": "bounded contract checking of the one DNSSEC computation that is plain arithmetic: Dnskey::key_tag against an "
-                       "independent transcription of RFC 4034 Appendix B (Kani, key sizes stated); and the value of the RRSIG Labels field: "
-                       "ToName::rrsig_label_count (real text, unit nameorder, for every name representation) == number of labels not "
-                       "counting the root and a leftmost asterisk label, with its unwrap() and subtraction proved safe for absolute "
-                       "names. Timestamp ordering is covered by C17; the canonical name and RDATA orders the signer sorts by are "
-                       "covered by C04 (units nameorder, nsec3order).",
-        "not_covered": "Everything else in the statement: the signed-octets construction (RFC 4034 3.1.8.1), signing and verification "
-                       "(ring/openssl: asm/FFI), DS digests, wildcard reconstruction in RrsigExt::signed_data (sort_by, iterator adapters, Cow: "
-                       "outside both tools), scratch-buffer handling of the signer, tamper rejection. Dnskey::key_tag could "
-                       "not be taken to Verus (u16::from_be_bytes / <[u8]>::try_into have no Verus specification), so the u32 "
-                       "accumulator bound for 65535-octet keys is not proved, only checked up to 48 octets.",
+        "explanation": "the signed octets, on both sides, against one RFC 4034 3.1.8.1 spec function (unit rrsigdata, real text, no bound): "
+                       "the signer's sign_sorted_rrset_in returns an RRSIG whose fields are the RFC 4034 3.1 fields (type covered, algorithm of "
+                       "the key, Labels per 3.1.3, original TTL = TTL of the RRset, expiration and inception in that order, key tag of the "
+                       "signing key, signer name = owner of the key), placed at the RRset's owner, class and TTL, whose signature is the key "
+                       "back end's signature over exactly RRSIG_RDATA | RR(1) | RR(2) | ... -- whatever the scratch buffer held on entry -- "
+                       "and refuses RRSIG RRsets and inverted validity periods; its expect(\"long signature\") and debug_assert are dead; "
+                       "ProtoRrsig::{new, compose_head, compose_canonical, into_rrsig}, Rrsig::{new, new_unchecked, accessors} and "
+                       "Record::compose_canonical write the fields in wire order; the validator's RrsigExt::signed_data sorts the records by "
+                       "canonical RDATA and appends RRSIG_RDATA and, per record, the owner reconstructed from the Labels field (RFC 4035 "
+                       "5.3.2: `*.` + the rightmost Labels labels when the answer owner is longer), type, class, the ORIGINAL TTL, RDLENGTH and "
+                       "canonical RDATA. Lemmas over these contracts: what signed_data reconstructs for the RRset handed back in any order, "
+                       "with any TTL, with owners in any letter case or expanded from the wildcard owner, is the octet string that was "
+                       "signed. The value of the Labels field: ToName::rrsig_label_count (real text, unit nameorder, every name "
+                       "representation). Dnskey::key_tag against an independent transcription of RFC 4034 Appendix B (Kani, bounded, key "
+                       "sizes stated). Timestamp ordering is covered by C17; the canonical name and RDATA orders the signer sorts by are "
+                       "covered by C04 (units nameorder, nsec3order); canonical RDATA per type by C05.",
+        "not_covered": "The cryptography (ring/openssl sign and verify: asm/FFI; modelled as 'a signature over exactly these octets'), DS "
+                       "digests, tamper rejection beyond what the native search samples, sign_rrset's own sort and the zone-level signing "
+                       "loops (sign_sorted_zone_records: key selection, skipping of glue and delegations), wildcard_closest_encloser. "
+                       "Dnskey::key_tag could not be taken to Verus (u16::from_be_bytes / <[u8]>::try_into have no Verus specification), "
+                       "so the u32 accumulator bound for 65535-octet keys is not proved, only checked up to 48 octets.",
+        "assumptions": [
+            "integer, Rtype, Class, Ttl, Timestamp and SecurityAlgorithm compose as their big-endian octets (Compose for int_enum!/integers: to_be_bytes)",
+            "ToName::compose_canonical appends the lower-cased uncompressed name (RFC 4034 6.2); iter_labels().count() and "
+            "to_cow().iter_suffixes().nth(k) behave as label count and k-th suffix; names are valid absolute names (C03)",
+            "ToName::rrsig_label_count as proved in unit nameorder; ComposeRecordData::compose_canonical_len_rdata appends RDLENGTH and the canonical RDATA (C05)",
+            "<[T]>::sort_by yields a permutation ordered by the closure; Rrset accessors answer from the first record of a non-empty RRset and Rrset::iter yields its records in order",
+            "SignRaw::sign_raw returns a signature of at most 4096 octets over exactly the octets it is given; the From<SignError> conversion of `?` is folded into the model",
+            "the two sorted record sequences of the agreement lemma correspond record by record (uniqueness of the sorted order of distinct canonical RDATA is not proved)",
+        ],
     },
     "C06": {
         "level": "proof",
